@@ -398,3 +398,29 @@ func SpecHmacInit(key []byte) int { panic("ghost") }
 
 //@ func isLegalCompText
 //@   ensures result == (('a' <= b && b <= 'z') || ('A' <= b && b <= 'Z') || ('0' <= b && b <= '9') || b == '-' || b == '_' || b == '.' || b == '~')
+
+// ---------------------------------------------------------------------------------------
+// C14, naming-convention tables (what Component.String and the URI parser consult): the package initialiser builds
+// compConvByType from a literal and compConvByStr from it. Every entry is filed under its own type number and carries a
+// value format; the reverse table holds only entries of the forward table, filed under their own name.
+// ---------------------------------------------------------------------------------------
+
+//@ func init
+//@   ensures [conv-reverse] forall(func(k TLNum) bool { return implies(mapHas(compConvByType, k), mapHas(compConvByStr, compConvByType[k].name) && compConvByStr[compConvByType[k].name] == compConvByType[k]) })
+//@   ensures [conv-by-type] forall(func(k TLNum) bool { return implies(mapHas(compConvByType, k), compConvByType[k] != nil && compConvByType[k].typ == k && compConvByType[k].vFmt != nil) })
+
+//@ func init#1
+//@   requires forall(func(k TLNum) bool { return implies(mapHas(compConvByType, k), compConvByType[k] != nil && compConvByType[k].vFmt != nil) })
+//@   requires [names-distinct] forall(func(k1 TLNum, k2 TLNum) bool { return implies(mapHas(compConvByType, k1) && mapHas(compConvByType, k2) && k1 != k2, compConvByType[k1].name != compConvByType[k2].name) })
+//@   modifies compConvByStr
+//@   ensures [conv-by-str] wfCompConv()
+//@   ensures [conv-reverse] forall(func(k TLNum) bool { return implies(mapHas(compConvByType, k), mapHas(compConvByStr, compConvByType[k].name) && compConvByStr[compConvByType[k].name] == compConvByType[k]) })
+
+//@ func initComponentConventions
+//@   requires forall(func(k TLNum) bool { return implies(mapHas(compConvByType, k), compConvByType[k] != nil && compConvByType[k].vFmt != nil) })
+//@   requires [names-distinct] forall(func(k1 TLNum, k2 TLNum) bool { return implies(mapHas(compConvByType, k1) && mapHas(compConvByType, k2) && k1 != k2, compConvByType[k1].name != compConvByType[k2].name) })
+//@   modifies compConvByStr
+//@   ensures [conv-by-str] wfCompConv()
+//@   ensures [conv-reverse] forall(func(k TLNum) bool { return implies(mapHas(compConvByType, k), mapHas(compConvByStr, compConvByType[k].name) && compConvByStr[compConvByType[k].name] == compConvByType[k]) })
+//@   loop 1 invariant forall(func(k string) bool { return implies(mapHas(compConvByStr, k), compConvByStr[k] != nil && compConvByStr[k].vFmt != nil) })
+//@   loop 1 invariant [reverse-so-far] forall(func(k TLNum) bool { return implies(mapHas(compConvByType, k) && visited(k), mapHas(compConvByStr, compConvByType[k].name) && compConvByStr[compConvByType[k].name] == compConvByType[k]) })
